@@ -104,6 +104,8 @@ def random_query(rng, tr: Tracker, p_sub=0.12):
     r = rng.random()
     all_ops = [(j, p) for j, job in enumerate(tr.spec) for p in range(len(job))]
     ready = [[j, tr.jnext[j]] for j in tr.ready_jobs()]
+    if r < 0.04:
+        return [9, rng.randrange(7)]
     if r < p_sub and ready:
         sub = [k for k in ready if rng.random() < 0.6] or [rng.choice(ready)]
         if rng.random() < 0.3:
